@@ -261,7 +261,14 @@ def cxx_build(pid, sources, extra='', asan=False, libphoton=False, out=None, tim
         libdir = photon_lib()
         link = ' -L%s -Wl,-rpath,%s -lphoton -lpthread -ldl' % (libdir, libdir)
     srcs = ' '.join(s if os.path.isabs(s) else os.path.join(VERIF, s) for s in sources)
-    rc, log = sh('g++ %s %s -o %s %s -lpthread' % (flags, srcs, exe, link), timeout=timeout)
+    # link to a private name and rename: a concurrently running check may be EXECUTING the previous binary
+    # (overwriting it in place fails with ETXTBSY / corrupts the other run)
+    tmpexe = '%s.tmp.%d' % (exe, os.getpid())
+    rc, log = sh('g++ %s %s -o %s %s -lpthread' % (flags, srcs, tmpexe, link), timeout=timeout)
+    if rc == 0:
+        os.replace(tmpexe, exe)
+    elif os.path.exists(tmpexe):
+        os.remove(tmpexe)
     return (exe if rc == 0 else None), log
 
 
